@@ -71,7 +71,7 @@ fn judge_inv(
     world: &World,
     expect_noop: bool,
 ) -> bool {
-    let prop: &str = &ctx.prop;
+    let prop: &str = if ctx.prop == "C13" { "C09" } else { &ctx.prop };
     let mk_case = |out: &InvOut| -> J {
         J::obj()
             .with("case", J::i(case))
@@ -661,7 +661,8 @@ pub fn random_edit(prop: &str, rng: &mut Rng, world: &mut World) -> Option<J> {
 }
 
 fn history_case(ctx: &Ctx, dir: &std::path::Path, case: u64, seed: u64, rep: &mut Report) {
-    let prop: &str = &ctx.prop;
+    // C13's "reported by a depfile" clause uses C09's workload (dependencies reported under several spellings)
+    let prop: &str = if ctx.prop == "C13" { "C09" } else { &ctx.prop };
     let mut rng = Rng::new(seed);
     let opts = hist_opts(prop, &mut rng, ctx.thorough());
     let mut proj = gen_project(&mut rng, &opts);
